@@ -89,6 +89,7 @@ def h_dry(tier):
 def h_lost(tier):
     q = [_ob("H-submit/lost", H, "h_submit", dict(shapes=["chain3", "fork3"], bss=[1, 2], maxns=[None, 1], lost=True,
                                                   fails=False), **_HO)]
+    q.append(_ob("H-submit/lost-fails", H, "h_submit", dict(shapes=["fork3"], bss=[1], maxns=[None], lost=True, fails=True), **_HO))
     if tier == "quick":
         return q
     return q + [_ob("H-submit/lost-wide", H, "h_submit", dict(shapes=["chain3", "fork3", "join3", "cycle2p1"], bss=[1, 2],
@@ -122,11 +123,11 @@ def c20(tier):
     if tier == "quick":
         return [_ob("K-stats", KR, "k_stats", dict(samples=3)),
                 _ob("K-stats/wide", KR, "k_stats", dict(samples=2, wide=True)),
-                _ob("K-events", KR, "k_events", dict(max_events=2))] + k_tally(tier)
+                _ob("K-events", KR, "k_events", dict(max_events=2))] + k_tally(tier) + h_lost("quick")[-1:]
     return [_ob("K-stats", KR, "k_stats", dict(samples=4)),
             _ob("K-stats/wide", KR, "k_stats", dict(samples=2, wide=True)),
             _ob("K-events", KR, "k_events", dict(max_events=2)),
-            _ob("K-events/3", KR, "k_events", dict(max_events=3, nstamps=3, ndata=2))] + k_tally(tier)
+            _ob("K-events/3", KR, "k_events", dict(max_events=3, nstamps=3, ndata=2))] + k_tally(tier) + h_lost("quick")[-1:]
 
 
 KC = "harness.k_config"
